@@ -367,6 +367,27 @@ def apply_body_rules(body, counts, dropped):
     return "".join(out)
 
 
+def strip_comments(body):
+    """R0: remove `//` and `/* */` comments (string/char literals respected)."""
+    out = []
+    i, n = 0, len(body)
+    while i < n:
+        c = body[i]
+        if c == "/" and i + 1 < n and body[i + 1] in "/*":
+            k = skip_trivia_and_literals(body, i)
+            out.append(" " if body[i + 1] == "*" else "")
+            i = k
+            continue
+        k = skip_trivia_and_literals(body, i)
+        if k is not None:
+            out.append(body[i:k])
+            i = k
+            continue
+        out.append(c)
+        i += 1
+    return "".join(out)
+
+
 def split_top_commas(s):
     parts, depth, cur = [], 0, []
     i = 0
